@@ -182,6 +182,98 @@ func (t *c10Trans) stmtsMentioning(fd *ast.FuncDecl, needle string) []string {
 	return out
 }
 
+// envProg translates every statement that writes cmd.Env (or replaces cmd) in a function body into
+// (guard, base, items): guard = the enclosing if-conditions joined by " && " (an else branch contributes "!(cond)"),
+// base = what the new value starts from ("cmd.Env" for append(cmd.Env, ...), otherwise the expression text, e.g.
+// "os.Environ()"; "<fresh>" for cmd = exec.Command(...), whose Env is nil), items = the appended expressions.
+// Any other statement that mentions cmd.Env, or a write under a loop/switch/closure, fails closed.
+type c10EnvStmt struct {
+	guard, base string
+	items       []string
+}
+
+func (t *c10Trans) envProg(fn string, stmts []ast.Stmt, guard []string, out *[]c10EnvStmt) {
+	g := strings.Join(guard, " && ")
+	for _, st := range stmts {
+		switch x := st.(type) {
+		case *ast.AssignStmt:
+			for i, lhs := range x.Lhs {
+				l := t.text(lhs)
+				switch {
+				case l == "cmd.Env":
+					if len(x.Lhs) != 1 || len(x.Rhs) != 1 || (x.Tok != token.ASSIGN) {
+						failShape("%s: cmd.Env written by a statement of unknown shape: %s", fn, t.text(st))
+					}
+					if call, ok := x.Rhs[0].(*ast.CallExpr); ok && t.text(call.Fun) == "append" && len(call.Args) >= 1 {
+						s := c10EnvStmt{guard: g, base: t.text(call.Args[0])}
+						for j, a := range call.Args[1:] {
+							it := t.text(a)
+							if call.Ellipsis.IsValid() && j == len(call.Args)-2 {
+								it += "..."
+							}
+							s.items = append(s.items, it)
+						}
+						*out = append(*out, s)
+					} else {
+						*out = append(*out, c10EnvStmt{guard: g, base: t.text(x.Rhs[0])})
+					}
+				case l == "cmd":
+					if i < len(x.Rhs) || len(x.Rhs) == 1 {
+						r := x.Rhs[0]
+						if len(x.Rhs) == len(x.Lhs) {
+							r = x.Rhs[i]
+						}
+						if call, ok := r.(*ast.CallExpr); ok && t.text(call.Fun) == "exec.Command" {
+							*out = append(*out, c10EnvStmt{guard: g, base: "<fresh>"})
+						} else if call, ok := r.(*ast.CallExpr); ok && t.text(call.Fun) == "e.ExecCommand" {
+							*out = append(*out, c10EnvStmt{guard: g, base: "<call:ExecCommand>"})
+						} else {
+							failShape("%s: cmd assigned from %s", fn, t.text(r))
+						}
+					}
+				case strings.Contains(l, "cmd.Env"):
+					failShape("%s: write through cmd.Env of unknown shape: %s", fn, t.text(st))
+				}
+			}
+			for _, r := range x.Rhs {
+				if _, ok := r.(*ast.FuncLit); ok && strings.Contains(t.text(r), "cmd.Env") {
+					failShape("%s: closure touches cmd.Env: %s", fn, t.text(st))
+				}
+			}
+		case *ast.IfStmt:
+			if x.Init != nil {
+				t.envProg(fn, []ast.Stmt{x.Init}, guard, out)
+			}
+			cond := t.text(x.Cond)
+			t.envProg(fn, x.Body.List, append(append([]string{}, guard...), cond), out)
+			if x.Else != nil {
+				neg := append(append([]string{}, guard...), "!("+cond+")")
+				switch e := x.Else.(type) {
+				case *ast.BlockStmt:
+					t.envProg(fn, e.List, neg, out)
+				default:
+					t.envProg(fn, []ast.Stmt{e}, neg, out)
+				}
+			}
+		case *ast.BlockStmt:
+			t.envProg(fn, x.List, guard, out)
+		default:
+			// loops, switches, selects, go/defer statements, expression statements: must not touch the command's environment
+			if txt := t.text(st); strings.Contains(txt, "cmd.Env") || strings.Contains(txt, ".Env =") || strings.Contains(txt, "cmd = ") {
+				failShape("%s: statement of unknown shape touches the command's environment: %s", fn, txt)
+			}
+		}
+	}
+}
+
+func coqEnvProg(fn string, ss []c10EnvStmt) []string {
+	out := []string{}
+	for _, s := range ss {
+		out = append(out, fmt.Sprintf("(%s, %s, %s, %s)", coqString(fn), coqString(s.guard), coqString(s.base), coqStringList(s.items)))
+	}
+	return out
+}
+
 func coqPairList(ps [][2]string) string {
 	items := make([]string, len(ps))
 	for i, p := range ps {
@@ -273,10 +365,24 @@ func init() {
 			cmdEnv = append(cmdEnv, [2]string{"ExecCommand", s})
 		}
 
+		// the command-environment program: ExecWithTimeout obtains cmd from ExecCommand and then appends
+		var pEC, pEW []c10EnvStmt
+		t5.envProg("ExecCommand", ec.Body.List, nil, &pEC)
+		t4.envProg("ExecWithTimeout", ew.Body.List, nil, &pEW)
+		if len(pEW) == 0 || pEW[0].base != "<call:ExecCommand>" || pEW[0].guard != "" {
+			failShape("ExecWithTimeout: cmd does not come from e.ExecCommand first: %v", pEW)
+		}
+		if len(pEC) == 0 || pEC[0].base != "<fresh>" || pEC[0].guard != "" {
+			failShape("ExecCommand: cmd is not created by exec.Command first: %v", pEC)
+		}
+		prog := append(coqEnvProg("ExecCommand", pEC), coqEnvProg("ExecWithTimeout", pEW[1:])...)
+
 		fmt.Fprintf(&b, "Definition env_keys : list (string * string) :=\n  %s.\n", coqPairList(keys))
 		fmt.Fprintf(&b, "Definition caller_reads : list (string * string) :=\n  %s.\n", coqPairList(reads))
 		fmt.Fprintf(&b, "Definition hash_env : list (string * string) :=\n  %s.\n", coqPairList(hashEnv))
 		fmt.Fprintf(&b, "Definition cmd_env : list (string * string) :=\n  %s.\n", coqPairList(cmdEnv))
+		fmt.Fprintf(&b, "(* (function, guard, base, appended items) of every statement that sets the command's environment, in execution order *)\n")
+		fmt.Fprintf(&b, "Definition exec_env_prog : list (string * string * string * list string) :=\n  [%s].\n", strings.Join(prog, ";\n  "))
 		return b.String()
 	}
 }
